@@ -39,7 +39,7 @@ EXCEPTIONS = {
     # ------------------------------------------------------------------ R-SENT
     "R-SENT|BigTtlTriplesYielder._next_line_token|a_line.find('>', start_index)":
         "the token starts with '<': a valid Turtle statement always closes an IRI reference with '>' on the same line (dialect of C07)",
-    "R-SENT|NtTriplesYielder._look_for_last_index_of_uri_token|$1.find('>')":
+    "R-SENT|NtTriplesYielder._look_for_last_index_of_uri_token|*":            # however the substring is named or written
         "the token starts with '<': every IRIREF of a valid N-Triples statement is closed by '>'",
     "R-SENT|decide_literal_type|a_literal.rfind('\"')":
         "for a bare token (no quote) the slice from -1 is its last character, which cannot contain the type mark: the "
